@@ -1,0 +1,53 @@
+//go:build verif
+
+package sqlparser
+
+// Verification harness only (add-only): read access to the tokenizer's tables and cursor, and the
+// parser-side state changes of a Tokenizer (multi, reset, skipStatement) for the C14 tokenizer replay.
+
+// VerifX14EOFChar is the tokenizer's end-of-input pseudo character
+const VerifX14EOFChar = eofChar
+
+// VerifX14Keywords returns a copy of the keyword table
+func VerifX14Keywords() map[string]int {
+	out := make(map[string]int, len(keywords))
+	for k, v := range keywords {
+		out[k] = v
+	}
+	return out
+}
+
+// VerifX14StringTokenType returns a copy of the quote -> token type table
+func VerifX14StringTokenType() map[uint16]int {
+	out := make(map[uint16]int, len(stringTokenType))
+	for k, v := range stringTokenType {
+		out[k] = v
+	}
+	return out
+}
+
+// VerifX14Cursor is the scanning state of a Tokenizer
+type VerifX14Cursor struct {
+	LastChar    uint16
+	Position    int
+	BufPos      int
+	BufSize     int
+	PosVarIndex int
+	ForceEOF    bool
+	Multi       bool
+	Special     *Tokenizer
+}
+
+// VerifX14State returns the scanning state of tkn
+func VerifX14State(tkn *Tokenizer) VerifX14Cursor {
+	return VerifX14Cursor{tkn.lastChar, tkn.Position, tkn.bufPos, tkn.bufSize, tkn.posVarIndex, tkn.ForceEOF, tkn.multi, tkn.specialComment}
+}
+
+// VerifX14SetMulti sets the multi-statement flag as ParseNext does
+func VerifX14SetMulti(tkn *Tokenizer, multi bool) { tkn.multi = multi }
+
+// VerifX14Reset calls reset()
+func VerifX14Reset(tkn *Tokenizer) { tkn.reset() }
+
+// VerifX14SkipStatement calls skipStatement()
+func VerifX14SkipStatement(tkn *Tokenizer) { tkn.skipStatement() }
